@@ -4,7 +4,7 @@ set -u
 P=$1; shift
 cd /repo && git status --short | grep -v '^??' | head -1 | grep -q . && { echo "/repo not clean"; exit 2; }
 git -C /repo apply $P || { echo "patch does not apply"; exit 2; }
-cd /verif && ./check "$@" --tier quick 2>&1 | grep -v "^  discharged" | tail -12
+cd /verif && VERIF_SCRATCH_EVIDENCE=1 ./check "$@" --tier quick 2>&1 | grep -v "^  discharged" | tail -12
 echo "check exit=${PIPESTATUS[0]}"
 git -C /repo checkout -- .
 git -C /repo status --short | grep -v '^??' | head -3
